@@ -15,7 +15,8 @@ prop(
     level_note="Record-then-abandon is not driven: production assemble() only drops a writer when nothing was written, and every production Package records what it writes. "
     "Gaps (numbers burnt by abandoned assemblies) are counted, not flagged: the property only demands strict increase. 4-byte truncation in the ledger would need 2^23 unacknowledged packets; it is covered by (b) only.",
     design_ref="DESIGN.md §3 C07",
-    legs=[dict(name="ledger", crate="l1conn", sub="c07", shards={Q: 8, T: 16}, budget={Q: 20000, T: 300000}, timeout=1500)],
+    legs=[dict(name="ledger", crate="l1conn", sub="c07", shards={Q: 8, T: 16}, budget={Q: 20000, T: 300000}, timeout=1500),
+          dict(name="l2", crate="l2", sub="c07", shards={Q: 8, T: 16}, budget={Q: 4, T: 150}, timeout={Q: 900, T: 7200})],
     floors={
         Q: {
             "ledger_histories": 100000,
